@@ -265,3 +265,43 @@ theorem parseMlp_fmt (m : Mlp) (hp : PfxWF m.pfx) (hm : mlpNew m.pfx m.ml = .ok 
     rw [hm]
 
 end Rpki.PfxText
+
+namespace Rpki.PfxText
+open Rpki.Prefix Rpki.ResText
+
+theorem parseLen_lt (b : Bytes) (n : Nat) (h : parseLen b = some n) : n < 256 := by
+  have key : ∀ d : Bytes, (if d = [] ∨ (!d.all isDigit) = true then none
+      else if d.foldl (fun acc c => acc * 10 + (c - 48)) 0 ≤ 255
+        then some (d.foldl (fun acc c => acc * 10 + (c - 48)) 0) else none) = some n → n < 256 := by
+    intro d hd
+    by_cases h1 : d = [] ∨ (!d.all isDigit) = true
+    · rw [if_pos h1] at hd; cases hd
+    · rw [if_neg h1] at hd
+      by_cases h2 : d.foldl (fun acc c => acc * 10 + (c - 48)) 0 ≤ 255
+      · rw [if_pos h2] at hd; cases hd; omega
+      · rw [if_neg h2] at hd; cases hd
+  unfold parseLen at h
+  exact key _ h
+
+/-- what the text readers accept is what the constructor returns for the address and the length that
+were read, and the length is a `u8` -/
+theorem parsePfx_ok (relaxed : Bool) (s : Bytes) (p : Pfx) (h : parsePfx relaxed s = .ok p) :
+    ∃ addr len, len < 256 ∧ pfxNew relaxed addr len = .ok p := by
+  unfold parsePfx at h
+  split at h
+  · cases h
+  · split at h
+    · cases h
+    · next slash _ =>
+      split at h
+      · cases h
+      · next addr _ =>
+        split at h
+        · cases h
+        · next len hl =>
+          refine ⟨addr, len, parseLen_lt _ _ hl, ?_⟩
+          split at h
+          · next q hq => cases h; exact hq
+          · cases h
+
+end Rpki.PfxText
